@@ -99,6 +99,10 @@ func (rsc *readSeekCloser) Seek(offset int64, whence int) (int64, error) {
 		resp.Body.Close()
 		return 0, fmt.Errorf("seek: %s %q: unexpected status code %d", resp.Request.Method, resp.Request.URL, resp.StatusCode)
 	}
+	if want := rsc.size - offset; resp.ContentLength != -1 && resp.ContentLength != want {
+		resp.Body.Close()
+		return 0, fmt.Errorf("seek: %s %q: mismatch Content-Length %d: expect %d", resp.Request.Method, resp.Request.URL, resp.ContentLength, want)
+	}
 
 	rsc.rc.Close()
 	rsc.rc = resp.Body
